@@ -43,3 +43,49 @@ example : parseUtf16 [0x68, 0x00, 0x00, 0x00] = .ok ['h'] := by decide
 #print axioms C17_no_terminator
 
 end GoUefi.C17
+
+/-! ## the reader-based decoder: `Efistring.Unmarshal` = `ParseUtf16Var ∘ ReadNullString`
+
+F32: `ReadNullString` used to append the whole 2-byte block even when only one byte had been read,
+so that a lone trailing zero byte became a `00 00` terminator and `41 00 00` decoded to "A" without
+an error.  After the repair what it returns is a prefix of the input, and the statement below holds. -/
+namespace GoUefi.C17
+open GoUefi
+
+/-- what `ReadNullString` returns and what it leaves are the input, cut in two -/
+theorem C17_readNullString_splits (bs : Bytes) :
+    (readNullString bs).1 ++ (readNullString bs).2 = bs := by
+  induction bs using readNullString.induct with
+  | case1 a b r h =>
+    simp only [Bool.and_eq_true, beq_iff_eq] at h
+    simp [readNullString, h.1, h.2]
+  | case2 a b r h x rest hr ih =>
+    simp only [readNullString, h, hr] at *
+    simp [ih]
+  | case3 a => simp [readNullString]
+  | case4 => simp [readNullString]
+
+/-- `Efistring.Unmarshal` returns an error on every input that holds no `00 00` code unit at an even
+    offset — whatever its length, in particular when it ends inside a code unit. -/
+theorem C17_efistring_no_terminator (bs : Bytes)
+    (h : ¬ (∃ p tail, bs = p ++ [0, 0] ++ tail ∧ p.length % 2 = 0)) :
+    efistringUnmarshal bs = .err := by
+  unfold efistringUnmarshal
+  apply Decidable.byContradiction
+  intro hne
+  obtain ⟨p, hp, hl⟩ := parseUtf16_terminated hne
+  refine h ⟨p, (readNullString bs).2, ?_, hl⟩
+  rw [← hp]
+  exact (C17_readNullString_splits bs).symm
+
+/-- the input of the finding: 'A' followed by a single zero byte -/
+example : efistringUnmarshal [0x41, 0x00, 0x00] = .err := by decide
+example : efistringUnmarshal [0x00] = .err := by decide
+example : efistringUnmarshal [0x41, 0x00, 0x42, 0x00, 0x00] = .err := by decide
+/-- terminated input is accepted, and what follows the terminator is not looked at -/
+example : efistringUnmarshal [0x41, 0x00, 0x00, 0x00, 0x07] = .ok ['A'] := by decide
+
+#print axioms C17_readNullString_splits
+#print axioms C17_efistring_no_terminator
+
+end GoUefi.C17
